@@ -109,12 +109,38 @@ func NameOf(o interface{ Name() string }) string {
 	if f, ok := o.(*types.Func); ok {
 		return OldName(f)
 	}
+	if obj, ok := o.(types.Object); ok && obj != nil {
+		if v, ok := obj.(*types.Var); ok {
+			obj = v.Origin()
+		}
+		if n, ok := renamedObjs.Load(obj); ok {
+			return n.(string)
+		}
+	}
 	return o.Name()
 }
 
+// TypeShape renders what a rename of a type leaves unchanged: the underlying type with struct field names dropped.
+func TypeShape(tn *types.TypeName) string {
+	q := types.RelativeTo(tn.Pkg())
+	u := tn.Type().Underlying()
+	if st, ok := u.(*types.Struct); ok {
+		var parts []string
+		for i := 0; i < st.NumFields(); i++ {
+			parts = append(parts, types.TypeString(st.Field(i).Type(), q))
+		}
+		return "struct{" + strings.Join(parts, "; ") + "}"
+	}
+	if _, ok := u.(*types.Interface); ok {
+		return "interface " + strings.Join(strings.Fields(types.TypeString(u, q)), " ")
+	}
+	return strings.Join(strings.Fields(types.TypeString(u, q)), " ")
+}
+
 // renamedFuncs maps a function that was recognised as the renamed successor of a known function to the old simple
-// name (process-wide: *types.Func values are unique per load).
+// name (process-wide: *types.Func values are unique per load).  renamedObjs does the same for types and struct fields.
 var renamedFuncs sync.Map
+var renamedObjs sync.Map
 
 // OldName returns the name under which the rules know f: its own, unless f is a recognised rename.
 func OldName(f *types.Func) string {
@@ -202,6 +228,7 @@ func FoldNewHelpers(m *Module) []string {
 	for _, p := range m.Roots {
 		rel := m.Rel(p.PkgPath)
 		fo := &folder{m: m, p: p, info: p.TypesInfo, fresh: map[*types.Func]*ast.FuncDecl{}}
+		fo.typeAndFieldRenames(m, rel, known, &log)
 		for _, file := range p.Syntax {
 			if strings.HasSuffix(m.Fset.File(file.Pos()).Name(), "_test.go") {
 				continue
@@ -222,6 +249,10 @@ func FoldNewHelpers(m *Module) []string {
 		if len(fo.fresh) == 0 {
 			continue
 		}
+		// renamed types: a known type that is gone and exactly one new type of the same shape (both ways); renamed fields:
+		// in a known struct type, a known field that is gone and exactly one new field of the same type (both ways).  The
+		// identifiers that refer to a renamed type or field get their old spelling back on the loaded trees, and
+		// core.NameOf answers with the old name, so that rules keep recognising them.
 		// renames: a known function that is gone, and exactly one new function with the same receiver and the same
 		// parameter and result types, which in turn matches no other vanished function.  The new function takes the old
 		// one's place as an anchor and is not folded.
@@ -1166,6 +1197,128 @@ func (fo *folder) foldStmt(s ast.Stmt, within *ast.FuncDecl) ([]ast.Stmt, bool) 
 	}
 	fo.touch(within)
 	return out, true
+}
+
+func (fo *folder) typeAndFieldRenames(m *Module, rel string, known map[string]string, log *[]string) {
+	p := fo.p
+	prefix := m.Name + "\t" + rel + "\t"
+	scope := p.Types.Scope()
+	// types
+	var freshTypes []*types.TypeName
+	oldOf := map[*types.TypeName]string{}
+	for _, name := range scope.Names() {
+		if tn, ok := scope.Lookup(name).(*types.TypeName); ok && !tn.IsAlias() {
+			if _, isKnown := known[prefix+"type "+name]; !isKnown {
+				freshTypes = append(freshTypes, tn)
+			}
+		}
+	}
+	typeCands := map[string][]*types.TypeName{}
+	typeHits := map[*types.TypeName]int{}
+	for key, shape := range known {
+		if !strings.HasPrefix(key, prefix+"type ") || shape == "" {
+			continue
+		}
+		oldName := strings.TrimPrefix(key, prefix+"type ")
+		if scope.Lookup(oldName) != nil {
+			continue
+		}
+		for _, tn := range freshTypes {
+			if TypeShape(tn) == shape {
+				typeCands[oldName] = append(typeCands[oldName], tn)
+				typeHits[tn]++
+			}
+		}
+	}
+	renamed := map[types.Object]string{}
+	for oldName, tns := range typeCands {
+		if len(tns) == 1 && typeHits[tns[0]] == 1 {
+			oldOf[tns[0]] = oldName
+			renamed[tns[0]] = oldName
+			if m.RenamedObjs == nil {
+				m.RenamedObjs = map[string]types.Object{}
+			}
+			m.RenamedObjs[rel+"\t"+oldName] = tns[0]
+			*log = append(*log, rel+".type "+oldName+" renamed to "+tns[0].Name())
+		}
+	}
+	// fields of known (or renamed) struct types
+	for _, name := range scope.Names() {
+		tn, ok := scope.Lookup(name).(*types.TypeName)
+		if !ok || tn.IsAlias() {
+			continue
+		}
+		typeName := name
+		if o, ok := oldOf[tn]; ok {
+			typeName = o
+		} else if _, isKnown := known[prefix+"type "+name]; !isKnown {
+			continue
+		}
+		st, ok := tn.Type().Underlying().(*types.Struct)
+		if !ok {
+			continue
+		}
+		q := types.RelativeTo(p.Types)
+		present := map[string]bool{}
+		for i := 0; i < st.NumFields(); i++ {
+			present[st.Field(i).Name()] = true
+		}
+		fprefix := prefix + "field " + typeName + "."
+		cands := map[string][]*types.Var{}
+		hits := map[*types.Var]int{}
+		for key, ft := range known {
+			if !strings.HasPrefix(key, fprefix) {
+				continue
+			}
+			oldField := strings.TrimPrefix(key, fprefix)
+			if present[oldField] {
+				continue
+			}
+			for i := 0; i < st.NumFields(); i++ {
+				f := st.Field(i)
+				if _, isKnown := known[fprefix+f.Name()]; isKnown || f.Embedded() {
+					continue
+				}
+				if types.TypeString(f.Type(), q) == ft {
+					cands[oldField] = append(cands[oldField], f)
+					hits[f]++
+				}
+			}
+		}
+		for oldField, fs := range cands {
+			if len(fs) == 1 && hits[fs[0]] == 1 {
+				renamed[fs[0]] = oldField
+				*log = append(*log, rel+"."+typeName+"."+oldField+" renamed to "+fs[0].Name())
+			}
+		}
+	}
+	if len(renamed) == 0 {
+		return
+	}
+	// the SSA program and call graph are built from the trees as loaded: build them before any identifier is respelled
+	m.CallGraph()
+	for o, n := range renamed {
+		renamedObjs.Store(o, n)
+	}
+	// give the identifiers their old spelling back, in every analysed package
+	for _, q := range m.Roots {
+		for id, o := range q.TypesInfo.Uses {
+			if v, ok := o.(*types.Var); ok {
+				o = v.Origin()
+			}
+			if n, ok := renamed[o]; ok {
+				id.Name = n
+			}
+		}
+		for id, o := range q.TypesInfo.Defs {
+			if o == nil {
+				continue
+			}
+			if n, ok := renamed[o]; ok {
+				id.Name = n
+			}
+		}
+	}
 }
 
 // scalarReplace replaces, in fd, every local variable v of a fresh named struct type T (or *T) that is created in place
